@@ -61,15 +61,15 @@ var images = [][]imgEntry{
 type failure struct{ sig, msg string }
 
 type world struct {
-	c     *mc.Ctx // nil in BFS mode: failures are raised as panic(failure)
-	set   setting
-	fs    storage.FileSystem
-	tw    *sst.TableWriter
-	comp  *sst.Compactor
-	ll    *sst.LevelList
-	ref   map[string]*ent // latest version per key (tombstones kept)
-	seq   uint64
-	pend  *sst.ChangeSet
+	c    *mc.Ctx // nil in BFS mode: failures are raised as panic(failure)
+	set  setting
+	fs   storage.FileSystem
+	tw   *sst.TableWriter
+	comp *sst.Compactor
+	ll   *sst.LevelList
+	ref  map[string]*ent // latest version per key (tombstones kept)
+	seq  uint64
+	pend *sst.ChangeSet
 }
 
 func tableEntries(w *world, t *sst.Table) []kv.Entry {
